@@ -145,6 +145,8 @@ class CallMixin:
                 return [(st, self.call_prim(st, fn.data, args))]
             if k == 'lambda':
                 return self.call_lambda(st, fn.data, args, node)
+            if k == 'localfunc':
+                return self.call_localfunc(st, fn.data, args, kw, node)
             if k == 'global':
                 return self.call_named(st, fn.data, args, kw, node)
             if k == 'globalattr':
@@ -204,6 +206,48 @@ class CallMixin:
                     st.heap[(dc, f)] = z3.Store(arr, new.t, z3.Select(arr, v.t))
             return [(st, new)]
         raise OutsideSubset('copy.copy of ' + str(v.ty))
+
+    def call_localfunc(self, st, fnode, args, kw, node):
+        """Call of a nested function: its body runs with the enclosing locals visible (closure);
+        names it assigns are its own and disappear afterwards."""
+        params = [a.arg for a in fnode.args.args]
+        if len(args) != len(params) or kw:
+            raise OutsideSubset('nested function call shape')
+        if self.inline_depth > 6:
+            raise OutsideSubset('inline depth')
+        outer = dict(st.env)
+        inner = st
+        inner.env = dict(outer)
+        inner.env.update(zip(params, args))
+        own = set(params) | self.assigned_names(fnode.body)
+        self.inline_depth += 1
+        saved_lo, saved_contract = self.loop_ordinals, self.contract
+        self.loop_ordinals, self.contract = {}, None
+        try:
+            ends = self.exec_block(inner, fnode.body)
+        finally:
+            self.inline_depth -= 1
+            self.loop_ordinals, self.contract = saved_lo, saved_contract
+        out = []
+        for e in ends:
+            env = dict(e.env)
+            for n in own:
+                if n in outer:
+                    env[n] = outer[n]
+                else:
+                    env.pop(n, None)
+            e.env = env
+            if e.flow == 'return':
+                r = e.ret
+                e.flow, e.ret = 'normal', None
+                out.append((e, r))
+            elif e.flow == 'normal':
+                out.append((e, NONE))
+            elif e.flow == 'raise':
+                out.append((e, None))
+            else:
+                raise OutsideSubset('break/continue escaping a nested function')
+        return out
 
     def call_lambda(self, st, lam, args, node):
         if len(lam.args.args) != len(args):
@@ -725,6 +769,13 @@ class CallMixin:
             try:
                 e = box(coerce(x, cont.ty.elem, self.classes))
             except TypeMismatch:
+                if isinstance(x.ty, TTuple) and isinstance(cont.ty.elem, TTuple) and len(x.ty.items) == len(cont.ty.elem.items):
+                    # a tuple with Optional components where the list holds plain ones: each such
+                    # component must not be None here (safety obligation), then it fits
+                    parts = [self.coerce_checked(st, xi, ti, node, 'append-item') for xi, ti in zip(x.t, cont.ty.elem.items)]
+                    x = SV(cont.ty.elem, tuple(parts))
+                    self.write_place(st, pl, SV(cont.ty, z3.Concat(cont.t, sunit(cont.ty.elem, box(x)))), node)
+                    return [(st, NONE)]
                 j = join(cont.ty.elem, x.ty)
                 if j is None:
                     raise
